@@ -1687,7 +1687,9 @@ impl Node {
 
     /// Return the remaining time to live.
     pub fn ttl(&self) -> Duration {
-        self.valid_for - self.created_at.elapsed()
+        // A node can be used after its validity has run out (for example
+        // when it was created from records with a TTL of zero).
+        self.valid_for.saturating_sub(self.created_at.elapsed())
     }
 }
 
